@@ -731,11 +731,13 @@ def make_cfg(rng, kind, transient, ov, W, H, vary=True, consoles=False):
 def run(ctx):
     rng = ctx.rng
     ctx.assumptions += [
-        "terminal = the VT100 subset of harness/term.py / Model/Term.lean (text, LF with ONLCR, CR, CUU n, EL 2, DECTCEM, SGR, OSC 8), no auto-wrap, window of `height` rows over an unbounded scroll-back",
-        "the console is a terminal (force_terminal), not dumb, not Jupyter, not legacy Windows; auto_refresh=False (threads are C11's subject)",
-        "the user renderable is a parameter: the list of plain one-cell-wide character lines it yields; user output of print/log is the list of lines a console without a live display writes for the same call",
-        "Progress is driven with one column '{description} {completed}' and a frozen clock; Status with the frozen first spinner frame",
-        "wf (Lean, decidable): height >= 1, no operation raises, stop only as the last operation, every displayed frame fits the screen (automatic for crop/ellipsis), transient final frame leaves one free row",
+        "terminal = the VT100 subset of harness/term.py / Model/Term.lean (text, LF with ONLCR, CR, CUU n, EL 2, DECTCEM, SGR, OSC 8), no auto-wrap, window of `height` rows over an unbounded scroll-back; a double-width character occupies two cells",
+        "consoles: terminal (force_terminal), dumb terminal (TERM=dumb), file (not a terminal); not Jupyter, not legacy Windows; auto_refresh=False (threads are C11's subject); the screen theorems are about terminals that are not dumb with the display not disabled (Cfg.plain)",
+        "the user renderable is a parameter: the list of lines it yields (cell widths from rich/_cell_widths.py on the model side, from the Unicode East Asian Width property on the oracle side; zero-width characters are not generated); user output of print/log is the list of lines a console without a live display writes for the same call",
+        "Progress is driven with one column '{description} {completed}/{total}' and a frozen clock; rows wider than the console are outside the model (Rich truncates them with an ellipsis): the driver answers `unmodelled`",
+        "Status: what the spinner cell shows at each render is observed at Spinner.__rich_console__ and handed to the model (opaque function of the render count); the clock advances 50 ms per reading",
+        "FileProxy: CPython reference counting is assumed (a proxy dropped by _disable_redirect_io is closed, hence flushed, at once — unless the exception in flight was raised inside its flush())",
+        "wf (Lean, decidable): Cfg.plain, height >= 1, no operation raises, stop only as the last operation (wfM: anywhere), every displayed frame fits the screen (automatic for crop/ellipsis), a transient display leaves one free row, nothing is pending in a FileProxy when stop is called",
     ]
     cfgs = configs(rng, ctx.quick)
     depth = 3 if ctx.quick else 4
@@ -935,27 +937,33 @@ def replay(ctx, case):
 
 MANIFEST = {
     "text": "Lean 4 theorems (Props/C10.lean) about an executable state-machine model of rich/live.py, live_render.py, the live part of "
-    "progress.py and status.py writing to a VT100-subset terminal with a window of `height` rows over an unbounded scroll-back: "
-    "live_screen (for EVERY well-formed history, of any length, replaying what was written leaves exactly printed lines ++ last refreshed "
-    "frame ++ blank rows; nothing after a transient stop), cursor_never_above_region (for every operation the cursor stays at or below the "
-    "first row under the lines printed before it), cursor_visible_after_stop / stop_shows_cursor, shown_fits_of_crop, cleanup_on_exception "
-    "(for EVERY fault predicate over render-call indices, every body, every raise position: hook depth, sys.stdout/sys.stderr proxies and "
-    "restore slots, started flag and cursor visibility are restored and a body exception leaves the block), run_balanced. The theorems hold "
-    "for the repaired code variants, which are what /repo contains now; machine-checked witnesses (decide) show that rich 9.10.0 as found broke them: "
-    "old_bare_print_leaves_remnant (F19, before fix b373465), old_progress_start_leaks (before fix 4e4f7e5), old_restart_erases_printed_lines "
-    "(before fix b4577f9); transient_frame_filling_screen_leaves_remnant is the witness of the known finding that remains. Tie: per-operation "
-    "comparison of the characters real Live/Progress/Status objects write (tokenised by the independent harness/term.py) with the model's "
-    "terminal operations plus the control state, ~9k histories per quick run / ~250k thorough (bounded-exhaustive sessions over a per-kind "
-    "alphabet, seeded random histories up to 40 operations with restarts and injected faults, with-blocks with an exception at every "
-    "render-call index and every block position), Lean replay vs Python screen oracle, Lean wf/printed/lastFrame vs an independent Python "
-    "tracker; and the theorems' executable statements evaluated on rich's own output after every operation.",
-    "note": "Partial: live_screen is proved for ONE session (stop only as the last operation); histories that start a stopped display again "
-    "are covered by the model, the correspondence, direct evaluation and a witness, not by an unbounded theorem. wf excludes (explicitly, "
-    "decidably) visible-overflow frames taller than the screen (documented by rich as not clearable; Progress has no overflow handling at all) "
-    "and transient displays whose last frame leaves no free row (known finding, no small repair). Parameters, not modelled: what the user "
-    "renderable yields (a list of plain one-cell-wide lines), user output of print/log (the lines a console without live display writes), "
-    "Progress with one text column and a frozen clock, Status with its first spinner frame. Assumed: terminal console (force_terminal), not "
-    "dumb / Jupyter / legacy Windows, auto_refresh=False (threads are C11), no terminal resize, no auto-wrap at the right margin, LF acts as "
-    "CR LF (tty ONLCR). Trusted: Lean kernel; axioms propext/Classical.choice/Quot.sound; harness/term.py, lib_live.py and this module.",
+    "progress.py, status.py and the FileProxy buffers, writing to a VT100-subset terminal with a window of `height` rows over an unbounded "
+    "scroll-back (rows of cells: double-width characters take two): live_screen (for EVERY well-formed single-session history, of any length, "
+    "replaying what was written leaves exactly printed lines ++ last refreshed frame ++ blank rows; nothing after a transient stop), "
+    "live_screen_sessions (the same for any number of start/stop sessions on the same display object, prints between sessions included: "
+    "finished output ++ frame of the running session), cursor_never_above_region(_sessions), cursor_visible_after_stop / stop_shows_cursor / "
+    "cursor_hidden_iff_started (every history, every fault predicate, every console kind), shown_fits_of_crop, cleanup_on_exception (for EVERY "
+    "fault predicate over render-call indices, every body, every raise position: hook depth, sys.stdout/sys.stderr proxies and restore slots, "
+    "started flag and cursor visibility are restored and a body exception leaves the block), run_balanced. The theorems hold for the repaired code "
+    "variants; machine-checked witnesses (decide) show the code as found breaks them: old_bare_print_leaves_remnant (F19), old_progress_start_leaks, "
+    "old_restart_erases_printed_lines, old_transient_empty_frame_leaves_blank_line, old_pending_text_flushed_after_last_frame, and the known "
+    "finding transient_frame_filling_screen_leaves_remnant. Tie: per-operation comparison of the characters real Live/Progress/Status objects "
+    "write (tokenised by the independent harness/term.py) with the model's terminal operations plus the control state (started, hook depth, proxy "
+    "depths, restore slots, shape, task index, overflow mode, pending proxy text), ~10k histories per quick run / ~230k thorough: bounded-exhaustive "
+    "sessions over a per-kind alphabet, seeded random histories up to 40 operations (restarts, injected faults, stream writes with pending "
+    "text, console resize, Progress.update/reset/track, wide characters, files / dumb terminals / disabled Progress), with-blocks with an exception "
+    "at every render-call index and every block position, Lean replay vs Python screen oracle, Lean wf/printed/lastFrame and "
+    "wfM/finished/liveFrameOf vs an independent Python tracker; and the theorems' executable statements evaluated on rich's own output after "
+    "every operation (plus, for a Live on a file: the file holds the printed lines and, once, the last frame).",
+    "note": "wf excludes (explicitly, decidably): visible-overflow frames taller than the screen (documented by rich as not clearable; Progress has "
+    "no overflow handling at all), transient displays whose last frame leaves no free row (known finding, no small repair), text still pending in "
+    "a FileProxy when stop is called (the repaired stop flushes it first: modelled, tied and witnessed, not covered by live_screen), prints that do "
+    "not end in a new line (console.print(end='') shares its row with the first frame line and is erased with it: by design of the hook, see "
+    "Props/C10.lean), consoles that are not plain terminals (files, dumb terminals, Progress(disable=True): modelled and tied, outside the screen "
+    "property). Parameters, not modelled: what the user renderable yields, user output of print/log (the lines a console without live display "
+    "writes), the Progress column (one text column, frozen clock; rows wider than the console are `unmodelled`), the Status spinner frames "
+    "(observed). Assumed: CPython reference counting for FileProxy objects; auto_refresh=False (threads are C11); no auto-wrap at the right "
+    "margin, LF acts as CR LF (tty ONLCR); not Jupyter, not legacy Windows. Trusted: Lean kernel; axioms propext/Classical.choice/Quot.sound; "
+    "harness/term.py, lib_live.py and this module.",
     "design_ref": "DESIGN.md section 7, C10 (and section 8, F19)",
 }
